@@ -3,7 +3,7 @@
    of connections and all histories, for the executable models of all eight services
    (ldap, ftp, smtp, telnet, redis, memcached, http: per-connection state only; tftp: maps
    keyed by client). *)
-From HT Require Import C03.Model C03.Check C03.Proofs.
+From HT Require Import C03.Model C03.CheckLim C03.Proofs C03.Check.
 Open Scope N_scope.
 
 (* The frame theorem.  If (1) a step of any other connection (behaving as [ok] allows)
@@ -26,9 +26,10 @@ Theorem C03_frame :
   obs i (snd (run step a tr)) = obs i (snd (run step b (own i tr))).
 Proof. exact frame. Qed.
 
-(* every service whose Handle keeps its session state per connection: all interleavings *)
+(* every service whose Handle keeps its session state per connection (the step may depend on
+   the connection's own identity, i.e. its addresses): all interleavings *)
 Theorem C03_local_services_isolated :
-  forall (C : Type) (lstep : C -> input -> C * list reply * list ev) (c0 : C) (i : N) (tr : list (N * input)),
+  forall (C : Type) (lstep : N -> C -> input -> C * list reply * list ev) (c0 : C) (i : N) (tr : list (N * input)),
   obs i (run_outs (lift lstep) tt c0 tr) = obs i (run_outs (lift lstep) tt c0 (own i tr)).
 Proof. exact local_frame. Qed.
 
@@ -36,7 +37,7 @@ Proof. exact local_frame. Qed.
    with any other connections = those of i's own traffic alone *)
 Theorem C03_ldap_isolated : forall i tr,
   obs i (svc_run SVC_LDAP tr) = obs i (svc_run SVC_LDAP (own i tr)).
-Proof. exact (local_frame _ ldap_lstep (PH_NONE, false)). Qed.
+Proof. exact (local_frame _ (fun _ => ldap_lstep) (PH_NONE, false)). Qed.
 
 Theorem C03_ftp_isolated : forall i tr,
   obs i (svc_run SVC_FTP tr) = obs i (svc_run SVC_FTP (own i tr)).
@@ -44,33 +45,33 @@ Proof. exact (local_frame _ ftp_lstep (ftp_c0, [])). Qed.
 
 Theorem C03_smtp_isolated : forall i tr,
   obs i (svc_run SVC_SMTP tr) = obs i (svc_run SVC_SMTP (own i tr)).
-Proof. exact (local_frame _ smtp_lstep 0). Qed.
+Proof. exact (local_frame _ (fun _ => smtp_lstep) (0, None)). Qed.
 
 (* two smtp services in one process (connections spread over both) *)
 Theorem C03_smtp_two_services_isolated : forall i tr,
   obs i (svc_run SVC_SMTP2 tr) = obs i (svc_run SVC_SMTP2 (own i tr)).
-Proof. exact (local_frame _ smtp_lstep 0). Qed.
+Proof. exact (local_frame _ (fun _ => smtp_lstep) (0, None)). Qed.
 
 Theorem C03_telnet_isolated : forall i tr,
   obs i (svc_run SVC_TELNET tr) = obs i (svc_run SVC_TELNET (own i tr)).
-Proof. exact (local_frame _ telnet_lstep (PH_NONE, 0, 0)). Qed.
+Proof. exact (local_frame _ (fun _ => telnet_lstep) (PH_NONE, 0, 0)). Qed.
 
 Theorem C03_redis_isolated : forall i tr,
   obs i (svc_run SVC_REDIS tr) = obs i (svc_run SVC_REDIS (own i tr)).
-Proof. exact (local_frame _ redis_lstep PH_NONE). Qed.
+Proof. exact (local_frame _ (fun _ => redis_lstep) PH_NONE). Qed.
 
 Theorem C03_memcached_isolated : forall i tr,
   obs i (svc_run SVC_MEMCACHED tr) = obs i (svc_run SVC_MEMCACHED (own i tr)).
-Proof. exact (local_frame _ memcached_lstep PH_NONE). Qed.
+Proof. exact (local_frame _ (fun _ => memcached_lstep) PH_NONE). Qed.
 
 Theorem C03_http_isolated : forall i tr,
   obs i (svc_run SVC_HTTP tr) = obs i (svc_run SVC_HTTP (own i tr)).
-Proof. exact (local_frame _ http_lstep PH_NONE). Qed.
+Proof. exact (local_frame _ (fun _ => http_lstep) PH_NONE). Qed.
 
 (* responses are never delivered to another client, no event carries another connection's
    address: every reply goes to, every event carries, the connection that took the step *)
 Theorem C03_local_outputs_own :
-  forall (C : Type) (lstep : C -> input -> C * list reply * list ev) tr st k j x o,
+  forall (C : Type) (lstep : N -> C -> input -> C * list reply * list ev) tr st k j x o,
   nth_error tr k = Some (j, x) -> nth_error (snd (run (lift lstep) st tr)) k = Some o ->
   Forall (fun r => fst r = j) (fst o) /\ Forall (fun e => fst e = j) (snd o).
 Proof. exact local_outputs_own. Qed.
@@ -78,13 +79,13 @@ Proof. exact local_outputs_own. Qed.
 (* login, working-directory, dialogue state never leaks: after any interleaving the state of
    connection i is the fold of i's own inputs over the initial state *)
 Theorem C03_local_state_own :
-  forall (C : Type) (lstep : C -> input -> C * list reply * list ev) tr st i,
-  conns (fst (run (lift lstep) st tr)) i = fold_left (lnext C lstep) (map snd (own i tr)) (conns st i).
+  forall (C : Type) (lstep : N -> C -> input -> C * list reply * list ev) tr st i,
+  conns (fst (run (lift lstep) st tr)) i = fold_left (lnext C lstep i) (map snd (own i tr)) (conns st i).
 Proof. exact local_state_own. Qed.
 
 (* sequential histories: any number of earlier sessions, finished or not *)
 Theorem C03_earlier_sessions_irrelevant :
-  forall (C : Type) (lstep : C -> input -> C * list reply * list ev) c0 i h p,
+  forall (C : Type) (lstep : N -> C -> input -> C * list reply * list ev) c0 i h p,
   Forall (fun q : N * input => fst q <> i) h -> Forall (fun q : N * input => fst q = i) p ->
   obs i (run_outs (lift lstep) tt c0 (h ++ p)) = obs i (run_outs (lift lstep) tt c0 p).
 Proof. exact local_history_irrelevant. Qed.
@@ -105,6 +106,28 @@ Theorem C03_tftp_outputs_own : forall tr st k j x o,
   nth_error tr k = Some (j, x) -> nth_error (snd (run tftp_step st tr)) k = Some o ->
   Forall (fun r : N * reply => fst r = j) (fst o) /\ Forall (fun e : N * ev => fst e = j) (snd o).
 Proof. exact tftp_outputs_own. Qed.
+
+(* the rate limiter (services.Limiter as a model: one bucket per key): the answers a key gets
+   are those it would get if no other key ever called - whatever the other keys do, however
+   often - and they are: the first BURST = 4 calls admitted, the rest refused *)
+Theorem C03_limiter_independent : forall ks l l' k,
+  lim_used l k = lim_used l' k ->
+  answers_for k l ks = lim_run l' (filter (fun h => h =? k) ks).
+Proof. exact limiter_independent. Qed.
+
+Theorem C03_limiter_burst : forall n l k,
+  lim_run l (repeat k n) = map (fun j => lim_used l k + N.of_nat j <? BURST) (seq 0 n).
+Proof. exact limiter_burst. Qed.
+
+(* the closed form the "lim" checker judges the real Limiter with IS the bucket model *)
+Theorem C03_limiter_checker_closed_form : forall calls, model_run [] calls = expected [] calls.
+Proof. exact lim_checker_closed_form. Qed.
+
+(* memcached over UDP: isolated from every client with another IP, however much the others send *)
+Theorem C03_memcached_udp_keyed_isolation : forall i tr,
+  Forall (fun p : N * input => fst p = i \/ ip_of (fst p) <> ip_of i) tr ->
+  obs i (svc_run SVC_MCUDP tr) = obs i (svc_run SVC_MCUDP (own i tr)).
+Proof. exact mcudp_frame. Qed.
 
 (* the hypothesis is needed: clients behind one IP share the rate limiter (by design) *)
 Theorem C03_tftp_same_ip_boundary :
@@ -145,9 +168,23 @@ Proof. repeat split; vm_compute; reflexivity. Qed.
 
 (* smtp: B's mail is reported under B's address while A idles *)
 Example C03_smtp_former_witness :
-  events_of 34 (svc_run SVC_SMTP smtp_w1) = [mkEv 1 1; mkEv 1 2; mkEv 1 4; mkEv 2 7] /\
+  events_of 34 (svc_run SVC_SMTP smtp_w1) = [mkEv 1 1; mkEv 1 2; mkEv 1 4; mkEv 2 7006] /\
   events_of 17 (svc_run SVC_SMTP smtp_w1) = [mkEv 1 1].
 Proof. split; vm_compute; reflexivity. Qed.
+
+(* smtp: A leaves between two BDAT chunks; B's chunked mails consist of B's chunks only.
+   ftp: PASV on two destination addresses - each client is told its own *)
+Example C03_abandoned_transfers :
+  let smtp_tr := [(17, Open); (17, Tok 1 0 0); (17, Tok 2 0 0); (17, Tok 10 4 0); (17, Close);
+                  (34, Open); (34, Tok 1 0 0); (34, Tok 2 0 0); (34, Tok 12 9 0);
+                  (34, Tok 2 0 0); (34, Tok 10 11 0); (34, Tok 11 0 0); (34, Tok 13 0 0)] in
+  let ftp_tr := [(17, Open); (17, Tok 1 1 0); (17, Tok 2 1 0); (17, Tok 11 0 0);
+                 (34, Open); (34, Tok 1 1 0); (34, Tok 2 1 0); (34, Tok 11 0 0)] in
+  events_of 34 (svc_run SVC_SMTP smtp_tr) =
+    [mkEv 1 1; mkEv 1 2; mkEv 1 12; mkEv 2 9004; mkEv 1 2; mkEv 1 10; mkEv 1 11; mkEv 1 13; mkEv 2 11012] /\
+  replies_on 17 (svc_run SVC_FTP ftp_tr) = [220000; 331000; 230000; 227003] /\
+  replies_on 34 (svc_run SVC_FTP ftp_tr) = [220000; 331000; 230000; 227002].
+Proof. repeat split; vm_compute; reflexivity. Qed.
 
 (* the checker still recognises each former defect from an observation that shows it *)
 Example C03_checker_verdicts :
@@ -161,7 +198,7 @@ Example C03_checker_verdicts :
   let smtp_bad := mkCase 0 SVC_SMTP smtp_w1
         [([(17, 220000)], []); ([(17, 250000)], [e 17 1 1 25]); ([(34, 220000)], []);
          ([(34, 250000)], [e 34 1 1 25]); ([(34, 250000)], [e 34 1 2 25]); ([(34, 354000)], [e 34 1 4 25]);
-         ([(34, 250000)], [e 17 2 7 25])] in
+         ([(34, 250000)], [e 17 2 7006 25])] in
   let mk svc tr := mkCase 0 svc tr
         (map (fun o : outs => (fst o, map (fun x : N * ev => mkOE (fst x) (e_type (snd x)) (e_arg (snd x)) 0 (svc_port svc (fst x))) (snd o)))
              (svc_run svc tr)) in
@@ -190,4 +227,8 @@ Print Assumptions C03_earlier_sessions_irrelevant.
 Print Assumptions C03_tftp_keyed_isolation.
 Print Assumptions C03_tftp_earlier_clients_irrelevant.
 Print Assumptions C03_tftp_outputs_own.
+Print Assumptions C03_limiter_independent.
+Print Assumptions C03_limiter_burst.
+Print Assumptions C03_limiter_checker_closed_form.
+Print Assumptions C03_memcached_udp_keyed_isolation.
 Print Assumptions C03_tftp_same_ip_boundary.
